@@ -20,7 +20,7 @@ import (
 
 func TestMain(m *testing.M) {
 	document.SetGlobalLevel(document.LogLevelSilent)
-	kit.TestMain(m, 1300, 12000)
+	kit.TestMain(m, 2500, 40000)
 }
 
 func convOpts(o Opts) *markdown.ConvertOptions {
